@@ -143,6 +143,21 @@ CHECKS = {
         note="Scales are read at the module boundary at the time of the batch (streamlining may switch a module's "
              "activations off later). Known finding C12-F22 (a scale equal to 1.0 restarts the average) is matched by the "
              "arithmetic relation computed by the checker."),
+    "C13": dict(
+        technique="runtime monitor with fault injection: snapshots of torch's global module-hook registries, function-mode "
+                  "stack and extension switch around every context; bit fingerprints around every inference and library "
+                  "call; sys.monitoring failpoints enumerating every reached (function, k-th entry) pair",
+        level="fault_enumeration", ref="3.2, 4/C13",
+        text="Histories of sequential / nested / reused / re-entered Calibration contexts run on the real code, left "
+             "normally, by an exception raised in a module's forward, or by a fault injected at the k-th entry of each repo "
+             "function the fault-free run reaches (calibrate_input, calibrate_output, _updated_scale, absmax_scale, "
+             "qforward, forward, __torch_function__, quantize_activation, quantize_weight); after the outermost exit the "
+             "global registries and mode stack must equal the snapshot taken before; outside a context inference must not "
+             "change any parameter, buffer, scale or qtype and must be repeatable bit for bit; library calls must not "
+             "modify the float tensors they read.",
+        note="Fault points are function entries (PY_START), so faults between two statements of one function are not "
+             "enumerated. Fault enumeration is complete for the (function, k) pairs of the listed functions in quick tier "
+             "for k in {1, 2, last} and for k <= 6 and last in thorough tier."),
 }
 
 PLANNED = {}
